@@ -326,6 +326,7 @@ func (t *trzszTransfer) recvPrefixHash(writer fileWriter, srcFile *sourceFile, t
 	if err := file.Truncate(matchStep); err != nil {
 		return err
 	}
+	t.resumeRemainSize = size - matchStep
 	return nil
 }
 
